@@ -295,7 +295,33 @@ class Interp:
         init = self.repo.find_method(ci, "__init__")
         if init is not None:
             self.call_fi(init, args, kwargs, self_obj=o)
+            return o
+        if self.is_pydantic(ci):
+            # pydantic BaseModel: declared fields with their class-level defaults, then keywords
+            if args:
+                raise PyRaise("TypeError", "BaseModel.__init__() takes keyword arguments only")
+            for cc in reversed(self.repo.mro(ci)):
+                for name, ex in cc.attrs.items():
+                    if name == "model_config":
+                        continue
+                    o.fields[name] = Frame(self, FuncInfoStub(cc), {}, None).eval(ex)
+            for k_, v in kwargs.items():
+                if k_ in o.fields:
+                    o.fields[k_] = v
+            return o
+        if args or kwargs:
+            raise PyRaise("TypeError", f"{ci.node.name}() takes no arguments")
         return o
+
+    def is_pydantic(self, ci):
+        for cc in self.repo.mro(ci):
+            for b in cc.bases:
+                b2 = b
+                while isinstance(b2, ast.Subscript):
+                    b2 = b2.value
+                if isinstance(b2, ast.Name) and b2.id == "BaseModel":
+                    return True
+        return False
 
 
 class Frame:
